@@ -442,6 +442,129 @@ def launch (e : Env) (lessVersion : Option Nat) (quitIfOneScreen : Bool) : Launc
       else if PagerShape.refusedStem ≠ "" && fileStem path == some PagerShape.refusedStem then .refused
       else .other path args
 
+/-! ## 4. less set-up under `navigate`: the history-file copy and its panic points
+
+`_make_process_from_less_path` calls `navigate::copy_less_hist_file_and_append_navigate_regex`
+when `config.navigate`; that function unwraps `config.navigate_regex`. Whether this can panic is
+decided by `Config::from`'s computation of `navigate_regex`, which the extractor evaluates over
+navigate × show_themes × {option unset, `Some("")`, `Some(non-empty)}` (`navigateRegexTable`). -/
+
+/-- `--navigate-regex` as given by the user (command line or gitconfig). -/
+inductive RegexOpt
+  | unset
+  | empty
+  | nonempty
+  deriving DecidableEq, Repr
+
+def RegexOpt.name : RegexOpt → String
+  | .unset => "none"
+  | .empty => "empty"
+  | .nonempty => "nonempty"
+
+/-- `Config.navigate_regex`. -/
+inductive RegexVal
+  | none
+  | someEmpty
+  | given
+  | default
+  deriving DecidableEq, Repr
+
+def RegexVal.isSome : RegexVal → Bool
+  | .none => false
+  | _ => true
+
+def parseRegexVal (s : String) : Option RegexVal :=
+  if s = "none" then some .none
+  else if s = "some-empty" then some .someEmpty
+  else if s = "given" then some .given
+  else if s = "default" then some .default
+  else none
+
+/-- What the user asked for: `opt.navigate` (flag, `DELTA_NAVIGATE`, gitconfig, feature),
+    `opt.show_themes`, `opt.navigate_regex`. -/
+structure NavOpt where
+  navigate : Bool
+  showThemes : Bool
+  regex : RegexOpt
+  deriving DecidableEq, Repr
+
+/-- `Config::from`: the value of `navigate_regex`. -/
+def configNavigateRegex (o : NavOpt) : Option RegexVal :=
+  match PagerShape.navigateRegexTable.find?
+      (fun r => r.1 == o.navigate && r.2.1 == o.showThemes && r.2.2.1 == o.regex.name) with
+  | some r => parseRegexVal r.2.2.2
+  | none => none
+
+/-- The pager's view of the configuration (`PagerCfg::from(&Config)` after `Config::from(opt)`):
+    `none` when the field plumbing is not the one this model understands. -/
+structure PagerCfgM where
+  navigate : Bool
+  showThemes : Bool
+  navigateRegex : RegexVal
+  deriving DecidableEq, Repr
+
+def pagerCfgOf (o : NavOpt) : Option PagerCfgM :=
+  if PagerShape.pagerCfgFields.contains ("navigate", "navigate")
+     && PagerShape.pagerCfgFields.contains ("show_themes", "show_themes")
+     && PagerShape.pagerCfgFields.contains ("navigate_regex", "navigate_regex")
+     && PagerShape.configNavigateFrom == "opt.navigate"
+     && PagerShape.configShowThemesFrom == "opt.show_themes"
+     && PagerShape.configNavigateRegexIsLocal then
+    match configNavigateRegex o with
+    | some v => some ⟨o.navigate, o.showThemes, v⟩
+    | none => none
+  else none
+
+inductive Setup
+  /-- less is started; `histFile`: `LESSHISTFILE` points at delta's copy; `extra`: extra argument -/
+  | ok (histFile : Bool) (extra : List String)
+  /-- `unwrap()` on a `None` field of the configuration -/
+  | panic (field : String)
+  | unknown
+  deriving DecidableEq, Repr
+
+/-- the set-up completed, and `LESSHISTFILE` is set iff `h` -/
+def Setup.okWithHist (h : Bool) : Setup → Bool
+  | .ok h' _ => h == h'
+  | _ => false
+
+def guardHolds (c : PagerCfgM) (g : String) : Option Bool :=
+  if g = "navigate" then some c.navigate
+  else if g = "show_themes" then some c.showThemes
+  else none
+
+def allGuards (c : PagerCfgM) : List String → Option Bool
+  | [] => some true
+  | g :: gs =>
+    match guardHolds c g, allGuards c gs with
+    | some a, some b => some (a && b)
+    | _, _ => none
+
+/-- First config field unwrapped while it is `None`. -/
+def firstPanic (c : PagerCfgM) : List (String × String) → Option (Option String)
+  | [] => some none
+  | (_, field) :: rest =>
+    if field = "navigate_regex" then
+      if c.navigateRegex.isSome then firstPanic c rest else some (some field)
+    else none     -- an unwrapped field this model knows no invariant for
+
+/-- The history-file part of `_make_process_from_less_path` (hist file creation assumed to succeed). -/
+def lessSetupCfg (c : PagerCfgM) : Setup :=
+  if !PagerShape.lessSetupOtherUnwraps.isEmpty then .unknown else
+  match allGuards c PagerShape.lessSetupGuards with
+  | none => .unknown
+  | some false => .ok false []
+  | some true =>
+    match firstPanic c PagerShape.lessSetupConfigUnwraps with
+    | none => .unknown
+    | some (some f) => .panic f
+    | some none => .ok true (if c.showThemes && PagerShape.showThemesArg ≠ "" then [PagerShape.showThemesArg] else [])
+
+def lessSetup (o : NavOpt) : Setup :=
+  match pagerCfgOf o with
+  | some c => lessSetupCfg c
+  | none => .unknown
+
 /-! ## 3. bat's filter — transcription for the driver (trusted dependency, no theorem uses it) -/
 
 def batKind (bin self : String) : String :=
